@@ -974,9 +974,16 @@ class AssociationServer(TCPServer):
         self.socket = cast(socket.socket, self.socket)
         client_socket, address = self.socket.accept()
         if self.ssl_context:
-            client_socket = self.ssl_context.wrap_socket(
-                client_socket, server_side=True
-            )
+            # The TLS handshake is performed here, on the server's thread:
+            #   a peer that stalls during it mustn't block the server
+            client_socket.settimeout(self.ae.network_timeout)
+            try:
+                client_socket = self.ssl_context.wrap_socket(
+                    client_socket, server_side=True
+                )
+            except Exception:
+                client_socket.close()
+                raise
 
         return client_socket, address
 
